@@ -691,7 +691,7 @@ def execute(arg):
                     res_c = cmp.canon(do_read(st["fmt"], path))
             except Exception as exc:
                 raised = type(exc).__name__
-                sim.event("raised", lab, raised, str(exc)[:120])
+                sim.event("raised", lab, raised, str(exc).replace(root, "<fs>")[:120])
                 if op == "writer":
                     acked.pop(st["file"], None)
                     sim.count("writes_raised")
